@@ -233,3 +233,15 @@ Definition auto_swap_order (L i j : nat) (swap_back : bool) : list nat :=
   let l0 := seq 0 L in
   let l1 := if ap_need_swap p then apply_swaps l0 (swap_site_to_js (ap_hi p) (ap_lo p + 1)) else l0 in
   if ap_need_swap p && swap_back then apply_swaps l1 (swap_site_to_js (ap_lo p + 1) (ap_hi p)) else l1.
+
+(* ---- option handling (transpose, dagger) ------------------------------------------ *)
+(* tensor_network_gate_inds / gate_simple_long_range: `if dagger: G = conj(G); transpose = True`
+   (transpose is IMPLIED by dagger: both flags together still mean G^dagger).
+   Result: (conjugate the array?, transposed wiring?) *)
+Definition gate_opts (transpose dagger : bool) : bool * bool :=
+  if dagger then (true, true) else (false, transpose).
+
+(* tensor_network_gate_sandwich_inds: `Gu, Gl = (conj G, G) if dagger else (G, conj G);
+   transpose = dagger or transpose`.  Result: (conjugate upper?, conjugate lower?, transposed wiring?) *)
+Definition sandwich_opts (transpose dagger : bool) : bool * bool * bool :=
+  (dagger, negb dagger, dagger || transpose).
